@@ -55,6 +55,8 @@ def check(res):
         cases.append((s, dict(kind=k)))
     for s, m in progs.exc_state_programs():
         cases.append((s, dict(kind="exception-being-handled", **m)))
+    for s, m in progs.try_clause_exit_programs():
+        cases.append((s, dict(kind="exit-from-try-clause", **m)))
     for s, m in progs.exc_matrix_programs():
         cases.append((s, dict(kind="handler-matching-matrix", **m)))
     srcs = [c[0] for c in cases]
